@@ -30,8 +30,8 @@ ASSUMPTIONS = [
 ]
 EXHAUSTIVE = {"quick": False, "thorough": True}
 PLAN = {"quick": dict(depth2=5000, depth3=0), "thorough": dict(depth2=None, depth3=60000)}
-FLOORS = {"quick": {"annotations_built": 5000, "passthrough_probes": 120, "rebuild_fingerprints": 5000, "leaf_kinds": 47, "constructors": 23, "generic_class_probes": 60},
-          "thorough": {"annotations_built": 60000, "passthrough_probes": 120, "rebuild_fingerprints": 60000, "leaf_kinds": 47, "constructors": 23, "generic_class_probes": 80}}
+FLOORS = {"quick": {"annotations_built": 5000, "passthrough_probes": 120, "rebuild_fingerprints": 5000, "leaf_kinds": 47, "constructors": 23, "generic_class_probes": 60, "bare_container_probes": 150},
+          "thorough": {"annotations_built": 60000, "passthrough_probes": 120, "rebuild_fingerprints": 60000, "leaf_kinds": 47, "constructors": 23, "generic_class_probes": 80, "bare_container_probes": 200}}
 
 MOD = "vtot_ns"
 SRC = '''
@@ -153,10 +153,23 @@ def fingerprint(um, mm):
     return out
 
 
+BARE_CONTAINERS = {"list": list, "typing.List": list, "typing.Sequence": list, "collections.abc.Iterable": list, "tuple": tuple, "typing.Tuple": tuple,
+                   "set": set, "typing.Set": set, "frozenset": frozenset, "dict": dict, "typing.Dict": dict, "typing.Mapping": dict}
+
+
 def passthrough_probe(sh, ctor, leaf, src, T):
-    if leaf not in UNRESOLVABLE:
+    if leaf not in UNRESOLVABLE and leaf not in BARE_CONTAINERS:
         return
-    sentinel = object()
+    marker = object()
+    if leaf in BARE_CONTAINERS:
+        # an unparameterised container passes its CONTENTS through: the marker sits inside it
+        cls = BARE_CONTAINERS[leaf]
+        sentinel = {"k": marker} if cls is dict else cls([marker])
+        if ctor in ("set", "frozenset") or (ctor in ("dict", "typing.Dict", "typing.Mapping", "abc.Mapping") and False):
+            return
+        sh.count("bare_container_probes")
+    else:
+        sentinel = marker
     shape = {"list": [sentinel], "typing.List": [sentinel], "typing.Sequence": [sentinel], "tuplevar": (sentinel,), "typing.Tuple": (sentinel,),
              "tuplefix": (sentinel, 1), "dict": {"k": sentinel}, "typing.Dict": {"k": sentinel}, "typing.Mapping": {"k": sentinel},
              "abc.Mapping": {"k": sentinel}, "Optional": sentinel, "pipe": sentinel, "deque": [sentinel], "dcfield": {"f": sentinel},
@@ -179,13 +192,13 @@ def passthrough_probe(sh, ctor, leaf, src, T):
             continue
 
         def find(o, depth=0):
-            if o is sentinel:
+            if o is marker:
                 return True
-            if depth > 4:
+            if depth > 5:
                 return False
             if isinstance(o, dict):
                 return any(find(v, depth + 1) for v in o.values())
-            if isinstance(o, (list, tuple)) or type(o).__name__ == "deque":
+            if isinstance(o, (list, tuple, set, frozenset)) or type(o).__name__ == "deque":
                 return any(find(v, depth + 1) for v in o)
             if hasattr(o, "f"):
                 return find(o.f, depth + 1)
